@@ -944,9 +944,44 @@ func singleStore(al *ssa.Alloc) ssa.Value {
 		if _, isAlloc := val.(*ssa.Alloc); isAlloc {
 			return nil
 		}
+		// the store must dominate every other use of the variable (otherwise a use may see the
+		// zero value, e.g. a loop-carried `var ti T; for { ... ti = x }`)
+		var st *ssa.Store
+		for _, r := range *al.Referrers() {
+			if x, ok := r.(*ssa.Store); ok && x.Addr == ssa.Value(al) {
+				st = x
+			}
+		}
+		for _, r := range *al.Referrers() {
+			if r == ssa.Instruction(st) {
+				continue
+			}
+			if !instrDominates(st, r) {
+				return nil
+			}
+		}
 		return val
 	}
 	return nil
+}
+
+func instrDominates(a, b ssa.Instruction) bool {
+	ba, bb := a.Block(), b.Block()
+	if ba == nil || bb == nil {
+		return false
+	}
+	if ba == bb {
+		for _, ins := range ba.Instrs {
+			if ins == a {
+				return true
+			}
+			if ins == b {
+				return false
+			}
+		}
+		return false
+	}
+	return ba.Dominates(bb)
 }
 
 func hasStoreThrough(addr ssa.Value) bool {
